@@ -10,4 +10,33 @@ CLAIMS = {
        "Given the premises, contiguity / non-emptiness / exact cover follow by a two-line induction (DESIGN.md 4.16), so this is a proof of the property from the source shape, not a sample of inputs.",
   note="Trusted: Python integer // and % semantics, pool.map order preservation, list slicing. Does not execute anything."),
 }
+CLAIMS.update({
+ "C02": dict(ref="DESIGN.md 4.2", technique=T + "; acceptance-predicate normal form, sibling cross-check",
+  text="Decides, at all four rejection sites, that the accepted index is np.where(exp(L - max L) > U)[0] (strict; mirror and log forms accepted) with max over the same whole "
+       "evaluated array, U = rng.uniform(size=len(L)) with default bounds from the function's rng parameter; that only exact prefix truncation [:k] touches the accepted index "
+       "before rows are selected; that rows handed to the kernel are library rows at the accepted index, passed through make_full_samples* and the kernel's output columns 0-4 "
+       "unmodified and in order; that n_prior_samples is forwarded and random order is a no-repeat draw. Does not decide numpy's sampling/indexing semantics (trusted).",
+  note="Trusted: np.where ascending order, Generator.uniform iid U[0,1), fancy indexing copies rows. Probability statement follows from the predicate form + those library facts."),
+ "C06": dict(ref="DESIGN.md 4.6 + appendix B.1", technique=T + "; index-space typing (evaluated-order vs library-row indices, SSA-versioned)",
+  text="Decides by index-space typing that the ln_likelihood column is L[G] (L the array the acceptance used, G the accepted positions after the same truncation that built the rows) "
+       "and the ln_prior column is read at the library rows R = G or M[G] that built the samples with field='ln_prior'; that return_all_logprobs returns the whole array; that the "
+       "in-memory API takes ln_prior from the object it packs; plus the row pass-through and window/position alignment premises. Does not decide float scalar-ness of library returns beyond the field= clause.",
+  note="Trusted: fancy indexing / read_coordinates return rows in index order; kernel emits n_linear consecutive rows per input row (C02-COPY/C03-LAYOUT)."),
+ "C10": dict(ref="DESIGN.md 4.10", technique=T + "; who-may-call over the whole package, generator provenance dataflow, call-graph forwarding",
+  text="Decides: zero uses of numpy's legacy global RNG API / stdlib random outside rng_context and zero callers of rng_context (whole package); every draw site's generator derives from "
+       "the rng parameter / self.rng / the task generator; every internal call that can reach a draw forwards such a generator; run_worker gives task i Generator(PCG64(spawn(len(tasks))[i])) "
+       "of the parent's own seed sequence and workers draw from their task's generator; no fresh/constant-seeded generator anywhere else. Does not decide bit-identity of numpy streams across processes.",
+  note="Trusted: SeedSequence.spawn yields distinct children and advances between calls; numpy Generators are deterministic in their seed; pm.draw(random_seed=g) uses only g."),
+ "C13": dict(ref="DESIGN.md 4.13", technique=T + "; call-graph reachability, try/finally typestate, handler discipline, write-path provenance (taint over parameters)",
+  text="Decides on every function reachable from the three sampling entry points: the temp file's creation is followed only by close() before a try whose finally unconditionally unlinks it and "
+       "whose handlers re-raise; every except handler re-raises or is allow-listed with a reason; every open is literal mode 'r' inside a with; every write-capable primitive acts only on "
+       "NamedTemporaryFile(...).name traced through parameters along call chains; sampling methods store no state on self and never close/enter the caller's pool. Does not decide OS/HDF5 behaviour on failure.",
+  note="Trusted: mode='r' opens never modify files; os.unlink removes; pool.map re-raises worker exceptions in the parent."),
+ "C14": dict(ref="DESIGN.md 4.14", technique=T + "; cursor-chain linear forms, return-value typestate, sibling agreement",
+  text="Decides for both iterative siblings: no `return <exception>`/None and every return is the make_full_samples* result; exact prefix truncation by n_requested_samples before rows are selected; "
+       "windows are X[cursor:cursor+size] over arange/choice(replace=False), the cursor advances by the size just evaluated, the next size is clamped to a LIMIT that depends on max_prior_samples "
+       "after both updates, size<=0 stops, size>LIMIT raises before the loop, final rows use the evaluated row map; the acceptance form of C02 on the accumulated array; both siblings and the API honour max_prior_samples. "
+       "Does not decide data-dependent counts.",
+  note="Trusted: choice(replace=False) distinct rows; arange identity map."),
+})
 NOT_APPLICABLE = {}
